@@ -79,7 +79,9 @@ func (p *Printer) printTransaction(t *model.Transaction) (n int, err error) {
 			return p.count - start, err
 		}
 	}
-	if _, err := fmt.Fprintf(p, "%s \"%s\"", t.Date.Format("2006-01-02"), t.Description); err != nil {
+	// The syntax has no escape sequence for a double quote inside a description.
+	desc := strings.ReplaceAll(t.Description, "\"", "'")
+	if _, err := fmt.Fprintf(p, "%s \"%s\"", t.Date.Format("2006-01-02"), desc); err != nil {
 		return p.count - start, err
 	}
 	if _, err := io.WriteString(p, "\n"); err != nil {
